@@ -219,6 +219,23 @@ def main(tier):
                     docgen.to_sexp(d), ' '.join('(%d %s)' % (k, cps(s_)) for k, s_ in sorted(tbl.items())), cps(reset)))
                 dmeta.append((d, 20, True, name, st))
                 npairs += 1
+        # annotations that are NOT syntax tokens but compare equal to one (plain ints, True), inside a token, after
+        # that token - or another - has already been coloured: they change nothing
+        nequal = 0
+        for name, st in (ok_styles if tier != 'quick' else ok_styles[::max(1, len(ok_styles) // 12)]):
+            tbl, reset = tables[name]
+            toks = sorted(tbl)
+            for a in (toks if tier != 'quick' else r.sample(toks, min(len(toks), 4))):
+                for eq in sorted({a, r.choice(toks), 1}):
+                    other = 99 if eq == 1 and r.random() < 0.5 else 99 + eq
+                    d = ('C', [('An', ('tok', eq), ('T', 'p')), ('T', ' '),
+                               ('An', ('tok', a), ('C', [('T', 'ab'), ('An', ('oth', other), ('T', 'CD')), ('T', 'ef')])),
+                               ('T', 'q')])
+                    reqs.append('(colord 1 20 20 %s (%s) (%s))' % (
+                        docgen.to_sexp(d), ' '.join('(%d %s)' % (k, cps(s_)) for k, s_ in sorted(tbl.items())), cps(reset)))
+                    dmeta.append((d, 20, True, name, st))
+                    nequal += 1
+        run.coverage['token_equal_annotation_documents'] = nequal
         run.coverage['nested_token_pair_documents'] = npairs
         res = run_driver(reqs, shards=8)[1:]
         dis = 0
